@@ -79,7 +79,8 @@ func CreateControlFileContext(ctx context.Context, filePath string, fileType Con
 		if ctx.Err() == context.Canceled {
 			return nil, NewContextCanceled()
 		}
-		return nil, NewContextDone(ctx.Err().Error())
+		// The deadline of ctx is the end of the wait time: the same answer as in the loop below.
+		return nil, NewTimeoutError(filePath)
 	}
 
 	for {
